@@ -160,7 +160,7 @@ pub enum Operation {
     /// Outputs: 1
     ///
     /// Supported on IrValues `x` of type:
-    ///  - `Native` for any `n`   - imposes a range-check, 0 <= x < 2^(8N)
+    ///  - `Native` for `n <= 32` - imposes a range-check, 0 <= x < 2^(8N)
     ///  - `BigUint` for any `n`  - imposes a range-check, 0 <= x < 2^(8N)
     ///  - `JubjubPoint` for `n = 32`
     IntoBytes(usize),
